@@ -65,7 +65,7 @@ reg('C07', 'exploration',
     'from its symbol (exact rational arithmetic) and as measured by the real Convert in long double, equals the product of the '
     'system\'s base units raised to the declared exponents - all 514 reverse lookups, and ALL call histories of length 3 (N^3 per unit type) of '
     'RelatedUnitSystem, ConsistentUnit, Abbreviation, ParseEnumeration and Convert on the real code (a lookup must be a function of its argument only; the three results are bound by reference '
-    'and read after the last call), and the same tables asked from a second and third thread, one after another, in both orders of first use.',
+    'and read after the last call), the same tables asked from a second and third thread, one after another, in both orders of first use, and histories that start in a pristine forked process (every order of first use of the unit systems, every ordered pair as first calls).',
     TB + 'Symbol oracle atom table; the reading of unit-system enumerator names (Metre/Millimetre/Foot/Inch, Kilogram/Gram/Pound(-force), Second, Kelvin/Rankine).',
     'exhaustive enumeration of the finite configuration space against exact rational oracle', 'DESIGN.md section 7 C07', thorough=False)
 reg('C08', 'exploration',
@@ -202,7 +202,7 @@ reg('C05', 'exploration',
     'Exhaustive over programs: inverse pairs are derived mechanically from the compiler-discovered relation set (1495 pairs today: '
     'constructor form for both operands, operator form where no constructor twin exists, one-argument pairs from the smaller shape) and '
     'each composition g(f(a,b),b) is compared with a over a positive magnitude grid spanning 80 binades (40 in float) in 3 numeric types (decided domain: moderate magnitudes; the ends of the numeric range are walked for information in the thorough tier); the accepted '
-    'error is the implementation\'s own response to +-1,2,4 ulp moves of the intermediate and of b (perturbation oracle R3), floor 4 ulp.',
+    'error is the implementation\'s own response to +-1,2,4 ulp moves of the rounded intermediate (perturbation oracle R3; the shared exact operand is not perturbed), floor 8 ulp.',
     TB + 'Pairing is by signature (constructors) or by opposite operator; the tolerance uses the implementation as its own sensitivity probe, '
     'so a defect that makes a relation wildly ill-conditioned in the same way in both directions would widen it.',
     'exhaustive enumeration of derived inverse pairs x magnitude grid with perturbation oracle', 'DESIGN.md section 7 C05')
